@@ -90,6 +90,20 @@ PROPS = {
         "level_text": "Lean theorems C04_perm / C04_reject / table_ok over the cyclicGroups table regenerated from range.go on every run: for every n in 1..2^32+60 and every pair of draws the model iterator terminates and emits a permutation of 1..n; other sizes are rejected. Pratt certificates for all 32 rows are re-derived and kernel-checked each run. The algorithm model is tied to the code by differential runs of the real iterator.",
         "level_note": "Trusted: Lean kernel + Mathlib; sxfacts reads the table faithfully; math/big = Nat arithmetic; correspondence of the hand-written Next/constructor model is validated by sxdiff iter (differential, not proved).",
     },
+    "C07": {
+        "modules": ["SxVerif.Props.C07"],
+        "components": ["pipeline"],
+        "trusted_base": [
+            "modelled, not verified: Go channel / select / sync.WaitGroup / sync.Pool semantics at the granularity of one channel operation or one call per step (Model/Pipe.lean); gopacket SerializeBuffer.Clear never fails; the request channel is modelled unbounded (superset of every capacity incl. rendezvous)",
+            "stage descriptors regenerated from generator.go / engine.go / sender.go / memory.go by sxfacts (Generated/StagesPacket.lean): per goroutine the ordered channel operations with their ctx-guards, calls, closes, WaitGroup shape, capacities, wiring facts; the model's configuration (guards, capacities, order of WritePacketData/FreeSerializeBuffer, close order, closers wait) is READ from them and the side conditions are decided on them",
+            "the hand-written process bodies of Model/Pipe.lean are tied to the code by the side condition ShapeOk (op sequence of every goroutine) and by sxdiff pipeline: the real pipeline under load (multisets) and steered one-at-a-time traces replayed through the model's step function",
+        ],
+        "assumptions": ["the error stream has a consumer (startScanEngine drains it)",
+                        "the run is not cancelled (cancellation is C12; the no-panic theorem does cover cancel)",
+                        "PacketFiller.Fill is a function of the request; a failed WritePacketData is reported once"],
+        "level_text": "Lean theorems over the small-step interleaving system Pipe.step (N workers + N multiplexers + closer + sender + 2 error multiplexers + closer + environment, bounded FIFO channels with closed flags, buffer pool with identities, cancel step) instantiated from the regenerated stage descriptors: side_conditions (SingleCloser, CloseAfterSenders, FreeAfterWrite, GetBeforeFill, CapsPositive, GuardedOnReturnPath, ShapeOk, by decide), C07_conserve_partial (token conservation: written + error-consumed + in flight = consumed requests + failed writes + receiver errors, as an invariant of every reachable state of every uncancelled schedule, any N, any request list, any writer failure pattern), C07_no_panic (no send on closed / double close under every schedule incl. cancel), C07_errc_closes_after_cancel. Tied to the code by the real NewPacketMultiGenerator/PacketEngine/NewSender pipeline with a recording writer (frames multiset, errors multiset, done-after-last-write, bytes stable while the writer holds them), worker counts 1..64, >100 errors, slow and failing writers, and steered traces accepted by the model's step function.",
+        "level_note": "partial: the terminal forms C07_final_full / C07_done_full, byte exactness C07_bytes_full (buffer exclusivity) and C07_progress_full are stated as defs, not proved (the Drain and BufInv invariant preservation proofs are unfinished); they are covered dynamically by the Spec verdict on every harness case. Trusted: Lean kernel; Go runtime semantics as modelled; sxfacts; the race-detector run (thorough) is supporting evidence only.",
+    },
     "C20": {
         "modules": ["SxVerif.Props.C20"],
         "components": ["recv"],
